@@ -15,6 +15,25 @@ CHECKS = {
             'array sizes capped at 192 entries (rank is not capped below 5); empty arrays not generated; RSOME raising '
             'where NumPy succeeds is allowed by the statement and only counted.',
             'DESIGN.md section 4 / C05'),
+    'C01': ('property-based testing with an independent worst-case oracle: Hypothesis-generated ro models (feasible by construction), '
+            'each robust row maximised over its set by LP / hand-built cone program / closed form and re-evaluated by NumPy',
+            'Generated-input search over ro models (static + LDR with random masks, <=,>=,== robust rows with bilinear terms in 5 '
+            'spellings, per-constraint sets, 10 set families and intersections, 4 objective kinds). For every solved model each '
+            'robust row and the reported worst-case objective are tested at an independently computed worst-case member of the '
+            'attached set (membership re-verified), plus sampled members. Detects any counterpart that protects against too small '
+            'a set on a generated model; sampling, not proof.',
+            'Trusts HiGHS/ECOS/SciPy as used by the oracle (witnesses are re-verified by direct arithmetic, so a wrong witness '
+            'cannot raise an alarm); tolerance 1e-6/3e-5 relative; intersections with p-norm/KL pieces are attacked by SLSQP '
+            'witnesses only; infeasible/failed solves are skipped.',
+            'DESIGN.md section 4 / C01'),
+    'C02': ('property-based differential testing against an independent reference solver: Kelley cutting planes on the '
+            'semi-infinite LP (scipy HiGHS master, exact separation oracle) vs model.get()',
+            'Generated-input search over ro models whose sets admit an exact independent maximiser; the reported optimum is '
+            'compared with the optimum of the semi-infinite problem over (x, y0, Y restricted to the declared dependencies) solved '
+            'without RSOME. Both directions are checked (unsafe and conservative). Sampling, not proof.',
+            'Reference = cutting planes with separation points verified as members; non-convergence / artificial bounds / cone '
+            'solver failures are inconclusive; tolerance 1e-6 (LP) / 2e-4 (conic) relative.',
+            'DESIGN.md section 4 / C02'),
 }
 
 NOT_YET = 'check not built yet in this round (see DESIGN.md section 4 for the planned generator and oracle)'
